@@ -267,3 +267,48 @@ func alwaysLeaves(b *ast.BlockStmt) bool {
 	}
 	return false
 }
+
+// dominatingLeavingIfs returns, outermost first, the if statements without an else whose body always leaves and which
+// precede target in one of the blocks that enclose it: control reaches target only after each of them declined to leave.
+func dominatingLeavingIfs(root ast.Node, target ast.Node) []*ast.IfStmt {
+	var out []*ast.IfStmt
+	var stack []ast.Node
+	found := false
+	ast.Inspect(root, func(n ast.Node) bool {
+		if found {
+			return false
+		}
+		if n == nil {
+			stack = stack[:len(stack)-1]
+			return false
+		}
+		stack = append(stack, n)
+		if n != target {
+			return true
+		}
+		found = true
+		for i := 0; i+1 < len(stack); i++ {
+			var list []ast.Stmt
+			switch b := stack[i].(type) {
+			case *ast.BlockStmt:
+				list = b.List
+			case *ast.CaseClause:
+				list = b.Body
+			case *ast.CommClause:
+				list = b.Body
+			default:
+				continue
+			}
+			for _, st := range list {
+				if st.Pos() <= stack[i+1].Pos() && stack[i+1].End() <= st.End() {
+					break
+				}
+				if ifs, ok := st.(*ast.IfStmt); ok && ifs.Else == nil && alwaysLeaves(ifs.Body) {
+					out = append(out, ifs)
+				}
+			}
+		}
+		return false
+	})
+	return out
+}
